@@ -39,7 +39,8 @@ ASSUMPTIONS = [
 ]
 MUST_REACH = {"states": 500, "evictions_observed": 10, "reverse_after_later_injection": 10, "out_of_order_sends": 10,
               "resends_checked": 10, "law_evaluations": 10000, "circuit_forwarded": 100, "circuit_proxy_packets": 50,
-              "circuit_replays_of_sent_messages": 10, "circuit_endpoint_resends": 5, "circuit_socket_failures": 20}
+              "circuit_replays_of_sent_messages": 10, "circuit_endpoint_resends": 5, "circuit_socket_failures": 20, "circuit_first_sightings_flagged_resent": 50,
+              "long_history_injections": 1100, "long_history_probes": 100}
 
 ALPHABET = "NKHRLI"
 
@@ -290,9 +291,9 @@ def circuit_history(ctx, rng, steps):
     went_out = []                               # message objects that were sent (for replays)
     next_orig, path = rng.choice([0, 1]), []
 
-    def mk(packet_id):
+    def mk(packet_id, flags=0):
         return Message("CompletePingCheck", Block("PingID", PingID=packet_id is not None and packet_id % 256 or 0),
-                       packet_id=packet_id, direction=Direction.OUT)
+                       packet_id=packet_id, direction=Direction.OUT, flags=flags)
 
     def emitted(what):
         got, tr.ids[:] = list(tr.ids), []
@@ -351,7 +352,14 @@ def circuit_history(ctx, rng, steps):
                     o = rng.choice(sorted(first)[-4:]) if first else None
                     if o is None:
                         continue
-                msg = mk(o)
+                flags = 0
+                if a == "R" or rng.random() < 0.2:
+                    # retransmissions carry the RESENT flag - also when the proxy never saw the first copy (lost on the way),
+                    # so that the flagged packet is the first sighting of its id
+                    flags = 0x20
+                    if a == "F":
+                        ctx.count("circuit_first_sightings_flagged_resent")
+                msg = mk(o, flags)
                 circ.send(msg)
                 w = emitted(a)
                 if w is None:
@@ -418,6 +426,55 @@ def circuit_history(ctx, rng, steps):
     ctx.nontrivial(("circuit", tuple(path[-30:]), len(injected)))
 
 
+def long_history(ctx, rng):
+    """The stock window (10000) with far more than a thousand injections that are all still remembered: acknowledgements for
+    packets forwarded long ago, and for recent ones, must still translate back exactly."""
+    t = InjectionTracker(0, maxlen=10000)
+    injected, first = set(), {}
+    o = rng.choice([0, 1])
+    n_inj = 0
+    total = ctx.pick(2600, 9000)
+    for step in range(total):
+        if rng.random() < 0.55 and n_inj < total:
+            w = t.gen_injectable_id()
+            if w in injected or w in first.values():
+                ctx.violation("injected-id-collides", "injected id equals a wire id already in use", {"long_history_step": step, "wire": w})
+                return
+            injected.add(w)
+            n_inj += 1
+        else:
+            w = t.get_effective_id(o)
+            t.track_seen(w)
+            want = expected_wire(injected, o)
+            if w != want:
+                ctx.violation("long-history:effective-id-wrong", "translation differs from the shifted id after a long history",
+                              {"long_history_step": step, "orig": o, "wire": w, "expected": want, "injections": n_inj})
+                return
+            first[o] = w
+            o += 1
+        if step % 97 == 0 and first:
+            ctx.ev()
+            keys = sorted(first)
+            probe = keys[:3] + keys[-3:] + [rng.choice(keys) for _ in range(6)]
+            for po in probe:
+                try:
+                    back = t.get_original_id(first[po])
+                    again = t.get_effective_id(po)
+                except Exception as e:
+                    ctx.violation("translate-raises", "translation raised after a long history", {"long_history_step": step, "exc": repr(e)})
+                    return
+                ctx.count("long_history_probes")
+                if back != po or again != first[po]:
+                    ctx.violation("long-history:reverse-translation-wrong" if back != po else "long-history:translation-unstable",
+                                  "after more than a thousand remembered injections a wire id did not translate back to its "
+                                  "original id / an id translated again changed", {"long_history_step": step, "orig": po,
+                                                                                  "wire": first[po], "back": back, "again": again,
+                                                                                  "injections": n_inj})
+                    return
+    ctx.count("long_history_injections", n_inj)
+    ctx.nontrivial(("long-history", n_inj, o))
+
+
 def run(ctx):
     tmon.install()
     depth = ctx.pick(8, 12)
@@ -448,6 +505,8 @@ def run(ctx):
         if ctx.out_of_time():
             break
         circuit_history(ctx, rng, rng.choice([20, 60, 150]))
+    if ctx.shard % 4 == 0:
+        long_history(ctx, rng)
     tmon.drain(ctx)
 
 
